@@ -42,6 +42,23 @@ TEXT = {
                            "may appear in any node's apply ledger, and one submission is applied at most once.", "note": _N1},
     "C16": {"level": _E1 + "Every snapshot generated in a cluster run is checked: recorded boundary == last_applied of the captured state; "
                            "install + replay divergence shows up as C06 apply/state differences in the same runs.", "note": _N1 + " MemSm engine only in cluster runs."},
+    "C18": {"level": "Seeded exploration at component level: generated operation plans on the real BufferedRaftLog and its IO task (run on the "
+                     "simulator thread) over a store with a page-cache/durable split; crashes (process crash: unsynced-but-written data "
+                     "survives; power loss: synced data plus a torn prefix of the unsynced operations) at plan points; after reopen the log "
+                     "must be gap-free, contain everything flush()/durable_index() had reported durable and not since replaced, and must "
+                     "not resurrect replaced entries.",
+            "note": "Trusted base: SimStorageEngine, vendored tokio, libc seams. File/RocksDB engines are covered at store level by C20/C21, not here."},
+    "C19": {"level": "Seeded exploration: after every operation every query of the buffered log (first/last id, last_log_id, entry_term over "
+                     "the whole window, first/last index per term, range reads, conflict-append result, majority index) is compared with a "
+                     "plain reference log; indexes <= 24, forking histories make term boundaries, truncation and purge dense.",
+            "note": "Trusted base: the reference LogModel (about 60 lines). Inputs are legal Raft request shapes only."},
+    "C20": {"level": "Seeded exploration: File and RocksDB LogStores against a reference store, live and after close+reopen, for the in-order "
+                     "usage BufferedRaftLog produces (main batch) and for arbitrary out-of-order / gapped indexes (exposed batch).",
+            "note": "Reopen is a graceful close, not a crash; RocksDB crash points are not simulated (no file-system seam below RocksDB)."},
+    "C21": {"level": "Fault enumeration: every crash point of FileMetaStore::save_to_file (guarded hooks) x process-crash image, plus every "
+                     "torn prefix at the not-yet-synced points; each image reopened must load the old or the new hard state. RocksDB: "
+                     "saved value survives close+reopen.",
+            "note": "Exhaustive over hook points x tear lengths for each generated pair; RocksDB power loss is not simulated."},
     "C26": {"level": _E1 + "Every 25 virtual ms: for every two live nodes that are voters in their own view, no majority of one view is "
                            "disjoint from a majority of the other (closed form over the two voter sets).", "note": _N1},
     "C27": {"level": _E1 + "No vote request or granted vote ever originates from a node whose role is Learner; learners' ACKs are never "
